@@ -44,6 +44,58 @@ pub fn first_diff(a: &str, b: &str) -> String {
     format!("first difference at char {}: …{:?} vs …{:?}", i, sa, sb)
 }
 
+/// The errors and binding rules C10 names, as fixed sessions: (lines typed, then expected transcript
+/// of the last one; `*` in the expectation stands for any text without a line break).
+const C10_CORPUS: [(&[&str], &str); 14] = [
+    (&["DEF FNA(X)=X"], "?ILLEGAL DIRECT\nREADY.\n<STOPPED>"),
+    (&["10 PRINT FNA(1)", "RUN"], "?UNDEFINED USER FUNCTION IN 10\nREADY.\n<STOPPED>"),
+    (&["10 DEF FNA(X)=X", "20 PRINT FNA(1,2)", "RUN"], "?ILLEGAL FUNCTION CALL IN 20\nREADY.\n<STOPPED>"),
+    (&["10 DEF FNA(X,Y)=X+Y", "20 PRINT FNA(1)", "RUN"], "?ILLEGAL FUNCTION CALL IN 20\nREADY.\n<STOPPED>"),
+    (&["10 DEF FNA(X)=FNA(X+1)", "20 PRINT FNA(1)", "RUN"], "?OUT OF MEMORY IN *\nREADY.\n<STOPPED>"),
+    (&["10 DEF FNA(X)=FNB(X)+1", "15 DEF FNB(X)=FNA(X)+1", "20 PRINT FNA(1)", "RUN", "PRINT 7*6"], " 42 \nREADY.\n<STOPPED>"),
+    (&["10 X=5:DEF FNA(X)=X*2", "20 PRINT FNA(3);X", "RUN"], " 6  5 \nREADY.\n<STOPPED>"),
+    (&["10 DEF FNA(X)=X+Y", "20 Y=1:PRINT FNA(1);:Y=10:PRINT FNA(1)", "RUN"], " 2  11 \nREADY.\n<STOPPED>"),
+    (&["10 DEF FNA(X)=X+1", "20 PRINT FNA(FNA(FNA(FNA(FNA(FNA(FNA(FNA(0))))))))", "RUN"], " 8 \nREADY.\n<STOPPED>"),
+    (&["10 DEF FNA$(X$)=X$+\"!\"", "20 DIM Q(5):Q(2)=7:PRINT FNA$(\"HI\");Q(LEN(FNA$(\"A\")))", "RUN"], "HI! 7 \nREADY.\n<STOPPED>"),
+    (&["10 DEF FNA(X)=X*X", "20 DEF FNB(X,Y)=FNA(X)+FNA(Y)", "30 FOR I=FNA(1) TO FNB(1,1):PRINT I;:NEXT", "RUN"], " 1  2 \nREADY.\n<STOPPED>"),
+    (&["10 DEF FNA(X)=X+1", "20 PRINT FNA(1)", "RUN", "PRINT FNA(5)"], " 6 \nREADY.\n<STOPPED>"),
+    (&["10 DEF FNA(X)=X+1", "20 PRINT FNA(1)", "RUN", "CLEAR", "PRINT FNA(5)"], "?UNDEFINED USER FUNCTION\nREADY.\n<STOPPED>"),
+    (&["10 A=1:B=2", "20 DEF FNS(A,B)=A*10+B", "30 PRINT FNS(B,A);A;B", "RUN"], " 21  1  2 \nREADY.\n<STOPPED>"),
+];
+
+fn c10_corpus_case(i: usize, ctx: &mut Ctx) {
+    let (script, want) = C10_CORPUS[i];
+    let text = script.join("\n");
+    mon::journal(&text);
+    let mut s = crate::drive::Session::new();
+    s.drain(16);
+    let mut got = String::new();
+    for l in script.iter() {
+        let mark = s.mark();
+        s.enter(l);
+        if s.drain(400) != Stop::Stopped {
+            ctx.violation("no-stop", "corpus:no-stop", &format!("{:?} did not return to the prompt", l), &text);
+            return;
+        }
+        got = crate::drive::transcript(s.events_since(mark), crate::drive::Norm::STD);
+    }
+    ctx.evals += 1;
+    ctx.distinct_by_construction += 1;
+    ctx.count("corpus_sessions");
+    let ok = match want.find('*') {
+        Some(k) => got.starts_with(&want[..k]) && got.ends_with(&want[k + 1..]) && !got[k..got.len() - (want.len() - k - 1)].contains('\n'),
+        None => got == want,
+    };
+    if !ok {
+        ctx.violation(
+            "corpus",
+            &format!("corpus:{}", i),
+            &format!("the session ends with {:?}; documented behaviour {:?}", got, want),
+            &text,
+        );
+    }
+}
+
 /// Does this program still make implementation and model disagree? (None = the model does not
 /// specify it, or they agree.)
 fn disagree(p: &gen::Prog) -> Option<(String, String)> {
@@ -126,6 +178,9 @@ impl Prop for ModelProg {
     }
 
     fn run_case(&mut self, _idx: u64, rng: &mut Rng, ctx: &mut Ctx) {
+        if self.id == "C10" && (_idx as usize) < C10_CORPUS.len() {
+            return c10_corpus_case(_idx as usize, ctx);
+        }
         let o = self.opts(rng);
         let p = gen::generate(rng, o);
         let lines = gen::render(&p);
